@@ -127,13 +127,19 @@ def _raw_state():
             seen.add(klass)
             for attr in ("_state", "_global_value", "_global_float_value", "_global_double_value", "_global_half_value", "_num_probe_vectors"):
                 if hasattr(klass, attr):
-                    st.append((klass, attr, getattr(klass, attr)))
+                    st.append((klass, attr, getattr(klass, attr), attr in klass.__dict__))
     return st
 
 
 def _reset():
-    for klass, attr, v in _S["raw0"]:
-        setattr(klass, attr, v)
+    """back to the pristine class state of a fresh interpreter: own attributes get their initial values, attributes a class
+    only INHERITED at import time are removed again if a block created them (so that couplings through inheritance stay
+    visible in every case, not only in the first one of a process)"""
+    for klass, attr, v, own in _S["raw0"]:
+        if own:
+            setattr(klass, attr, v)
+        elif attr in klass.__dict__:
+            delattr(klass, attr)
 
 
 def _arg_choices(name, c):
